@@ -5326,3 +5326,110 @@ def tr4(m, run, rule='TR4.transform-on-real-classes'):
                 raise AnalysisError('%s: interpreter met an unsupported construct: %s' % (key, ex))
             run.ob(rule, key, why is None, 'every coordinate becomes %s, weights kept%s' % (doc, '' if inplace else ', input untouched') if why is None else why,
                    'geomdl/operations.py:%d in %s' % (fi.node.lineno, fi.key))
+
+
+# ====================================================================================== C13: construction of surfaces / volumes from sections, on real classes
+def cs2(m, run, rule='CS2.construction-from-sections-on-real-classes'):
+    """CS2: construct.construct_surface / construct_volume interpreted on sections (B-spline and rational) built by the classes' own
+    constructors and setters with exact symbolic points and weights, the result built by the real classes too: for every stacking
+    direction the result has, direction by direction, the degree / knot vector / size of the sections or of the keyword arguments, and
+    its control point at (u, v[, w]) - read through the getters, position v + size_v * u [+ size_u * size_v * w] - is the section point
+    the stacking prescribes, with the weight of that very point"""
+    from .skel import Sym
+    from .poly import Poly
+
+    def mk(sk, mod, cname, degs, sizes, lab):
+        pdim = len(degs)
+        total = 1
+        for s_ in sizes:
+            total *= s_
+        sfx = [''] if pdim == 1 else ['_' + 'uvw'[d] for d in range(pdim)]
+        o_ = sk.apply(('class', (mod, cname)), [], {}, None)
+        for d in range(pdim):
+            sk.call(m.lookup(o_._cls, 'degree' + sfx[d], 'setters'), [o_, degs[d]], {})
+        P = [[Poly.atom('%s_%d_%d' % (lab, i, c)) for c in range(3)] for i in range(total)]
+        W = [Poly.atom('%sw_%d' % (lab, i)) for i in range(total)] if mod == 'NURBS' else None
+        rows = [[Sym(x) for x in r] for r in P] if W is None else [[Sym(x * W[i]) for x in r] + [Sym(W[i])] for i, r in enumerate(P)]
+        sk.call(m.lookup(o_._cls, 'set_ctrlpts', 'methods'), [o_, rows] + (list(sizes) if pdim > 1 else []), {})
+        ranks = [[0] * (p + 1) + list(range(1, n - p)) + [n - p] * (p + 1) for p, n in zip(degs, sizes)]
+        for d in range(pdim):
+            sk.call(m.lookup(o_._cls, 'knotvector' + sfx[d], 'setters'), [o_, [Ord(10 * (d + 1) + r) for r in ranks[d]]], {})
+        return o_, P, W, [[10 * (d + 1) + r for r in ranks[d]] for d in range(pdim)]
+
+    def getp(sk, obj, nm):
+        g = m.lookup(obj._cls, nm, 'getters')
+        if g is None:
+            raise Violation('CS2', 'the result has no property %s' % nm, None)
+        return sk.call(g, [obj], {})
+    jobs = []
+    # (function, section class, section degrees, section sizes, number of sections, directions)
+    jobs.append(('construct_surface', 'Curve', (2,), (4,), 3, ('u', 'v')))
+    jobs.append(('construct_volume', 'Surface', (2, 1), (3, 4), 2, ('u', 'v', 'w')))
+    for fname, cname, sdegs, ssizes, nsec, dirs in jobs:
+        fi = m.func('construct.' + fname)
+        for direction in dirs:
+            for mod in ('BSpline', 'NURBS'):
+                key = 'construct.%s :: %d %s sections stacked along %s' % (fname, nsec, 'rational' if mod == 'NURBS' else 'B-spline', direction)
+                ab = dict(STD_ABSTRACTED)
+                ab[('knotvector', 'normalize')] = Py(lambda sk, node, kv, *a, **k: [Ord(x.rank) for x in kv], 'knotvector.normalize')
+                sk = SK(m, ab)
+                sk.exact = True
+                sk.construct = True
+                why = None
+                try:
+                    secs = [mk(sk, mod, cname, sdegs, ssizes, 's%d' % j) for j in range(nsec)]
+                    odeg = 1
+                    okv = [90] * (odeg + 1) + list(range(91, 91 + nsec - odeg - 1)) + [99] * (odeg + 1)
+                    out = sk.call(fi, [direction] + [s_[0] for s_ in secs], {'degree': odeg, 'knotvector': [Ord(r) for r in okv]})
+                    d_ = 'uvw'.index(direction)
+                    # result directions: the stacking direction receives the keyword data, the others the section's directions in order
+                    rdeg = list(sdegs)
+                    rdeg.insert(d_, odeg)
+                    rsz = list(ssizes)
+                    rsz.insert(d_, nsec)
+                    rkv = [list(x) for x in secs[0][3]]
+                    rkv.insert(d_, okv)
+                    if not isinstance(out, Bag) or not isinstance(out._cls, tuple) or out._cls[0] != mod:
+                        why = 'the result is not a %s shape' % mod
+                    else:
+                        a_ = out._a
+                        if list(a_.get('_degree', [])) != rdeg:
+                            why = 'the degrees of the result are %s, expected %s' % (list(a_.get('_degree', [])), rdeg)
+                        elif list(a_.get('_control_points_size', [])) != rsz:
+                            why = 'the sizes of the result are %s, expected %s' % (list(a_.get('_control_points_size', [])), rsz)
+                        elif [[getattr(k, 'rank', None) for k in kv] for kv in a_.get('_knot_vector', [])] != rkv:
+                            why = 'the knot vectors of the result are not (sections / keyword) in the directions %s' % rdeg
+                        else:
+                            cp = getp(sk, out, 'ctrlpts')
+                            ww = getp(sk, out, 'weights') if mod == 'NURBS' else None
+                            total = 1
+                            for s_ in rsz:
+                                total *= s_
+                            if not isinstance(cp, (list, tuple)) or len(cp) != total:
+                                why = 'the result has %r control points, expected %d' % (len(cp) if isinstance(cp, (list, tuple)) else cp, total)
+                            import itertools
+                            for idx in itertools.product(*[range(s_) for s_ in rsz]):
+                                if why:
+                                    break
+                                flat = idx[1] + rsz[1] * idx[0] + (rsz[0] * rsz[1] * idx[2] if len(rsz) == 3 else 0)
+                                j = idx[d_]
+                                rest = [x for k_, x in enumerate(idx) if k_ != d_]
+                                sflat = rest[0] if len(rest) == 1 else rest[1] + ssizes[1] * rest[0]
+                                _, P, W, _ = secs[j]
+                                for c in range(3):
+                                    s_ = _as_sym(cp[flat][c]) if len(cp[flat]) > c else None
+                                    if s_ is None or not s_.same(Sym(P[sflat][c])):
+                                        why = 'control point %s of the result (position %d) has %r in coordinate %d; it is point %s of section %d, %r' % (
+                                            idx, flat, cp[flat][c] if len(cp[flat]) > c else None, c, tuple(rest), j, P[sflat][c])
+                                        break
+                                if why is None and W is not None:
+                                    s_ = _as_sym(ww[flat]) if isinstance(ww, (list, tuple)) and len(ww) > flat else None
+                                    if s_ is None or not s_.same(Sym(W[sflat])):
+                                        why = 'the weight of control point %s of the result is %r; the point is point %s of section %d whose weight is %r' % (
+                                            idx, ww[flat] if isinstance(ww, (list, tuple)) and len(ww) > flat else ww, tuple(rest), j, W[sflat])
+                except Violation as v:
+                    why = '%s %s' % (v.msg, v.where())
+                except Unsupported as ex:
+                    raise AnalysisError('%s: interpreter met an unsupported construct: %s' % (key, ex))
+                run.ob(rule, key, why is None, 'degrees, knots, sizes per direction; every control point and weight is the section point the stacking prescribes' if why is None else why,
+                       'geomdl/construct.py:%d in %s' % (fi.node.lineno, fi.key))
